@@ -135,8 +135,15 @@ def run(ctx, progs):
                         so = eff.origin(b, cs[0].args()[0])
                         do = eff.origin(b, cs[0].args()[1])
                         dir_ok = tracking.accessor_key(so)[1] is not None and tracking.accessor_key(so)[1][:2] == ('param', 1) and tracking.accessor_key(do)[1][:2] == ('param', 2)
-                        ok = dst_len and src_len and dir_ok
-                        d = f"count = min(source bytes [{src_len}], destination bytes [{dst_len}]); direction self -> slice [{dir_ok}]"
+                        # the two slices may overlap: the memmove-semantics ptr::copy must be the ONLY raw transfer here
+                        # (calls into novel helpers are inlined, so a width-ladder / nonoverlapping fast path shows up as
+                        # another call that takes a raw pointer)
+                        others = [c for c in b.calls() if c.bb != cs[0].bb and not effects.PEEL.search(canon(c.target or ""))
+                                  and any(c.arg_ty(i).k == 'ptr' for i in range(len(c.t["args"])))]
+                        only = not others and canon(cs[0].target or "").endswith("ptr::copy")
+                        ok = dst_len and src_len and dir_ok and only
+                        d = (f"count = min(source bytes [{src_len}], destination bytes [{dst_len}]); direction self -> slice [{dir_ok}]; "
+                             f"ptr::copy (overlap-safe) is the only raw transfer [{only}{'' if only else ': also ' + ', '.join(sorted({canon(c.target or '') for c in others}))}]")
                 ctx.ob("R4.2.slice_to_slice", b.key, ok, b.where(), d)
         # the helpers return their count
         for nm, idx in (("copy_slice", 3), ("copy_slice_volatile", 3)):
